@@ -200,6 +200,43 @@ func runC16(t *testing.T, p *core.Plan) *core.Result {
 			}
 			sub.AckMode = 0
 			w.Settle()
+			if p.Seed%3 == 0 && !sub.EOF {
+				// every handshake has completed: the whole window must be usable
+				// again ("window slots are returned by every completed handshake and
+				// are not lost over time or across reconnects"). The subscriber
+				// withholds acknowledgements, win+2 fresh messages are published:
+				// exactly win of them must be in flight.
+				sub.AckMode = 1
+				before := len(sub.Recv)
+				for i := 0; i < win+2; i++ {
+					pb := packet.NewPublish()
+					pb.ID = src.NextID()
+					pb.Message = packet.Message{Topic: "t/s", QOS: 1, Payload: MsgPayload(7000+i, 0)}
+					sentQ[7000+i] = 1
+					src.Send(pb)
+				}
+				w.Settle()
+				got := 0
+				for _, e := range sub.Recv[before:] {
+					if q, ok := e.P.(*packet.Publish); ok && q.Message.QOS > 0 {
+						got++
+					}
+				}
+				res.Count("window_capacity_probes", 1)
+				if got < win && !sub.EOF {
+					res.Violate("C16", "C16.window-restored", "slots-lost", fmt.Sprintf("after every handshake had completed only %d of the %d window slots could be filled again (%d connections in this run)", got, win, len(conns)))
+				}
+				for round := 0; round < win+6 && len(sub.Pending) > 0; round++ {
+					pend := sub.Pending
+					sub.Pending = nil
+					for _, x := range pend {
+						sub.Send(x)
+					}
+					w.Settle()
+				}
+				sub.AckMode = 0
+				w.Settle()
+			}
 		}
 		judgeC16(w, conns, sentQ, win, q0, p, res)
 		if leaks := w.Teardown(); len(leaks) > 0 {
